@@ -634,6 +634,9 @@ def cases(ctx):
         k += 1
         if ctx.mine(k):
             yield {"kind": "finalizer", "op": op, "runs": 40 if ctx.quick else 150}
+    k += 1
+    if ctx.mine(k):
+        yield {"kind": "hub-reset"}
     for n in names:
         k += 1
         if ctx.mine(k):
@@ -785,6 +788,23 @@ def run_case(ctx, case):
     from vf.common import h64
     if case["kind"] == "deep-queue":
         return _deep_queue(ctx, case)
+    if case["kind"] == "hub-reset":
+        import json
+        import os
+        import subprocess
+        import sys
+        probe = os.path.join(os.path.dirname(os.path.dirname(os.path.abspath(__file__))), "harness", "hub_reset_probe.py")
+        try:
+            p_ = subprocess.run([sys.executable, probe, "3"], capture_output=True, text=True, timeout=300)
+            rep = json.loads(p_.stdout.strip().splitlines()[-1])
+        except Exception as e:
+            ctx.count("hub_reset_probe_failed")
+            ctx.notes["hub_reset_probe_error"] = f"{type(e).__name__}: {str(e)[:200]}"
+            return ctx.case(case, False)
+        ctx.count("hub_reset_rounds", rep["rounds"])
+        for pr in rep["problems"][:1]:
+            ctx.fail(case, "sockets of one run held across reset_socket_hub(): " + pr)
+        return ctx.case(case, True)
     if case["kind"] == "finalizer":
         return _finalizer(ctx, case)
     if case["kind"] == "broadcast-callbacks":
